@@ -574,8 +574,27 @@ class Domain:
                     out.append(("haskey", bp, v))
                 if it.func.attr == "copy" and bp is not None and bt in (T_NLIST, T_LIST):
                     out.append(("member", v, bp))
+                    out.append(("nn", v))
                     if bt == T_NLIST and bp.endswith("._children") and self.eng.tree_invariant:
                         out.append(("desc", v))
+                    if bt == T_NLIST and self.eng.registry_invariant:
+                        out.append(("reg", v))
+            # list(x) / reversed(x) / tuple(x) / x[:] : a snapshot (or a view) of the same elements
+            snap_of = None
+            if isinstance(it, ast.Call) and isinstance(it.func, ast.Name) and it.func.id in ("list", "reversed", "tuple") and len(it.args) == 1 and not it.keywords:
+                snap_of = it.args[0]
+            elif isinstance(it, ast.Subscript) and isinstance(it.slice, ast.Slice) and it.slice.lower is None and it.slice.upper is None and it.slice.step is None:
+                snap_of = it.value
+            if snap_of is not None:
+                bp = self.path(snap_of)
+                bt = self.type_of(snap_of)
+                if bp is not None and bt in (T_NLIST, T_LIST):
+                    out.append(("member", v, bp))
+                    out.append(("nn", v))
+                    if bt == T_NLIST and bp.endswith("._children") and self.eng.tree_invariant:
+                        out.append(("desc", v))
+                    if bt == T_NLIST and self.eng.registry_invariant:
+                        out.append(("reg", v))
             if isinstance(it, ast.Call) and isinstance(it.func, ast.Name) and it.func.id == "range":
                 out.extend(self._range_facts(v, it, st))
         elif isinstance(target, ast.Tuple) and ip is not None and "." not in ip:
